@@ -85,11 +85,12 @@ pub fn eval(c: &Case) -> Verdict {
         if let Some(want) = p.expect_msid {
             let concerns = match (&parsed, m.type_id) {
                 (_, 8) | (_, 9) | (RM::Data(_), _) => true,
-                (RM::Command(n, _, _, _), _) => n.build() == "onStatus",
+                // status / error answers to a stream request travel on that stream
+                (RM::Command(n, _, _, _), _) => n.build() == "onStatus" || n.build() == "_error",
                 _ => false,
             };
             if concerns {
-                vensure!(m.msid == want, "call {} named message stream {} but its {} travels on message stream {}", p.call as isize, want, match &parsed { RM::Command(_, _, _, a) => format!("onStatus {:?}", a.first().and_then(|o| prop(o, "code")).and_then(as_str)), RM::Data(_) => "data message".to_string(), _ => format!("type {} message", m.type_id) }, m.msid);
+                vensure!(m.msid == want, "call {} named message stream {} but its {} travels on message stream {}", p.call as isize, want, match &parsed { RM::Command(n, _, _, a) => format!("{} {:?}", n.build(), a.first().and_then(|o| prop(o, "code")).and_then(as_str)), RM::Data(_) => "data message".to_string(), _ => format!("type {} message", m.type_id) }, m.msid);
             }
         }
     }
